@@ -278,8 +278,8 @@ var c08Ids = []int{1, 2, 3, 4, 5, 6, 9, 10, 11, 12, 13, 14, 16, 21, 22, 23, 24, 
 
 // c08ResetDefaults puts weight 1 back into the default tables through the
 // tables GetCodonTable hands out (harness hygiene; see file comment).
-func c08ResetDefaults() {
-	for _, id := range c08Ids {
+func c08ResetDefaults(ids []int) {
+	for _, id := range ids {
 		t := GetCodonTable(id)
 		for a := range t.AminoAcids {
 			for c := range t.AminoAcids[a].Codons {
@@ -389,7 +389,7 @@ type c08Machine struct {
 // It stops at the first violation.
 func (mc *c08Machine) run(hist []c08Op) {
 	v := mc.v
-	c08ResetDefaults()
+	c08ResetDefaults(mc.fresh)
 	var real [2]Table
 	var model [2]c08M
 	model[0].empty, model[1].empty = true, true
@@ -512,8 +512,8 @@ func TestVerifC08(t *testing.T) {
 	for _, id := range c08Ids {
 		prist[id] = c08Pristine(id)
 	}
-	defer c08ResetDefaults()
-	c08ResetDefaults() // in case an earlier test of this process re-weighted a default table
+	defer c08ResetDefaults(c08Ids)
+	c08ResetDefaults(c08Ids) // in case an earlier test of this process re-weighted a default table
 
 	// ---- clause: exact counts ------------------------------------------------
 	nSeq := 10
@@ -619,7 +619,7 @@ func TestVerifC08(t *testing.T) {
 		wg.Wait()
 	}
 	vX.Done()
-	c08ResetDefaults()
+	c08ResetDefaults(c08Ids)
 
 	// ---- clause: histories against the value-semantics model ------------------
 	// a coding sequence in which every codon occurs (1 to 4 times), so that every
